@@ -113,11 +113,12 @@ def run(tier):
     import functools
     from .. import scheddfs
     bound = 2 if tier == "thorough" else 1
-    r = scheddfs.explore(functools.partial(sched_execute, "dwa-vs-timer"), sched_check, bound)
+    tasks = [(functools.partial(sched_execute, "dwa-vs-timer"), sched_check, bound)]
+    r = (scheddfs.explore_many(tasks) if tier != "thorough" else scheddfs.explore_many_capped(tasks, 1, 600))[0]
     for (key, detail), choices in r["violations"]:
         rep.add(Violation(key, f"[DWA handling vs timer check, bound {bound}] choices {choices}: {detail}", {"sched": "dwa", "choices": choices}))
     rep.sample({"schedule_exploration": "DWA arriving while the connection awaits it: reader thread vs I/O thread timer check at line granularity",
-                "preemption_bound": bound, "executions": r["executions"], "distinct_outcomes": len(r["outcomes"]), "branching_points": r["max_points"]})
+                "preemption_bound": bound, "bound_completed_without_cap": r.get("bound_completed", bound), "capped": r.get("capped", False), "executions": r["executions"], "distinct_outcomes": len(r["outcomes"]), "branching_points": r["max_points"]})
     rep.cov["schedules"] = r["executions"]
     ms = models(tier)
     depth = 26 if tier == "thorough" else 16
